@@ -120,7 +120,7 @@ pub fn all_lines(max: usize) -> impl Iterator<Item = Line> {
 
 const FRAGMENTS: &[&str] = &[
     "echo", "if", "then", "fi", "for", "in", "do", "done", "case", "esac", "while", "x=1", "a b", "$x", "${x}", "${x:-y}", "${x//a/b}", "$(", ")", "$((", "))", "`", "\\`",
-    "'", "\"", "\\", "\\\n", "\n", ";", ";;", "&&", "||", "|", "&", "<<EOF\n", "<<-E\n", "EOF\n", "E\n", "<<<", ">", ">>", "2>&1", "<(", ">(", "{", "}", "(", "((", "[[", "]]", "#c", " ", "  ",
+    "'", "\"", "\\", "\\\n", "\n", ";", ";;", "&&", "||", "|", "&", "<<EOF\n", "<<-E\n", "<<\"\"", "<<''", "<<\\\n", "EOF\n", "E\n", "<<<", ">", ">>", "2>&1", "<(", ">(", "{", "}", "(", "((", "[[", "]]", "#c", " ", "  ",
     "é", "€", "日本", "~", "~/x", "*", "?", "[a-z]", "!", "-n", "--opt", "=", "$'a\\n'", "$\"q\"", "function f", "f()", "time", "coproc", "select", "\t", "$", "${", "${#", "$((1+", "a\\", "\u{1F600}",
 ];
 
@@ -132,10 +132,10 @@ pub fn fragment_lines(max_frag: usize) -> BoxedStrategy<Line> {
 
 pub fn run(ctx: &Ctx) -> Vec<LayerReport> {
     let mut out = vec![];
-    let max = ctx.tier.pick(3, 5);
+    let max = ctx.tier.pick(4, 5);
     let expected: u64 = (0..=max).map(|l| (ALPHABET.len() as u64).pow(l as u32)).sum();
     out.push(enumerate(&Hl { name: "exhaustive" }, all_lines(max), ctx, true, expected));
-    let n = ctx.tier.pick(150_000, 2_000_000);
+    let n = ctx.tier.pick(400_000, 2_000_000);
     let fl = ctx.tier.pick(8, 14);
     out.push(explore_par(&Hl { name: "fragments" }, || fragment_lines(fl), n, ctx));
     out
@@ -145,6 +145,14 @@ pub fn replay(layer: &str, case: &serde_json::Value) -> Result<(String, Verdict)
     match layer {
         "exhaustive" => replay_case(&Hl { name: "exhaustive" }, case),
         "fragments" | "corpus" | "mutated" => replay_case(&Hl { name: "fragments" }, case),
+        // diagnostic aid: the tokens of a line with their locations
+        "tokens" => {
+            let text = case.get("text").and_then(|t| t.as_str()).unwrap_or("");
+            let toks = brush_parser::tokenize_str(text);
+            let mut v = Verdict::skip("tokens");
+            v.sample = Some(serde_json::json!(format!("{toks:?}")));
+            Ok((text.to_string(), v))
+        }
         _ => Err(format!("C19: unknown layer {layer}")),
     }
 }
